@@ -122,3 +122,12 @@ Definition entry_of_reloc (s : state) (offs : list Z) (re : reloc) : rentry :=
 (* ---- reference semantics: what the CPU forms from a patched site (absolute addresses, modulo the address width) ---- *)
 (* a relative field: address of the next instruction (x86) / of the instruction (a64: region = 0 in `next`) + displacement *)
 Definition rel_target (abits base next d : Z) : Z := (base + next + d) mod 2 ^ abits.
+
+(* ---- base address known when assembling (CodeHolder::init(env, base)): the assemblers compute a relative field at once instead of
+   recording an AbsToRel / address-table entry: x86 EmitJmpCall imm path (`rel64 = target - (ip + base + section_offset) - inst32_size`),
+   x86-64 EmitModSib [ABSOLUTE] -> RIP (`rip64 = base + section_offset + offset_of_modrm + imm_size + 5`).  `next` = offset of the end of
+   the instruction relative to the image start; abits = 32 in 32-bit mode (always encodable), 64 otherwise (must fit int32). ---- *)
+Definition known_rel32 (abits base next target : Z) : option Z :=
+  let v := wrap 64 (target - (base + next)) in
+  if abits <=? 32 then Some (v mod 2 ^ 32)
+  else if is_int32 (to_i64 v) then Some (v mod 2 ^ 32) else None.
